@@ -151,7 +151,7 @@ def gen_plan(rng, tier, i, seed):
         settings = [x for x in settings if x[0] != extra[1]]
         options = [x for x in options if x[0] != extra[1]]
     # history: an earlier version of the same profile file (other values) was loaded by the same process
-    prior = route in ("roundtrip", "options", "options_explicit") and rng.random() < 0.5
+    prior = route in ("roundtrip", "options", "options_explicit", "profile_cli") and rng.random() < 0.5
     return {"w": gen_world(seed, i % cfg["worlds"], exome=(route == "exome")), "route": route,
             "settings": settings, "options": options, "prior": prior, "empty_options": empty_options,
             # the gene structure is supplied by the user as well (--cn): the profile file's options must count all the same
@@ -227,6 +227,11 @@ def _judge_profile_cli(plan, outcome, env, malformed):
         if not _same(got, e, typ):
             vs.append(_v("written profile does not carry the parameter value", name=n, given=given,
                          expected=e, got=got, dashes=plan["dashes"], **env))
+    given_names = {n for n, *_ in plan["settings"]} | ({plan["extra"][1]} if plan["extra"] else set())
+    stray = sorted(set(wr["options_text"]) - given_names)
+    if stray:
+        vs.append(_v("written profile carries a parameter that this call did not set", names=stray,
+                     values=[wr["options_text"][n] for n in stray], earlier_call_in_process=wr.get("prior_cli"), **env))
     return vs
 
 
@@ -461,6 +466,15 @@ def run_segment(seg):
             import contextlib
             import io
 
+            if seg.get("prior"):
+                # history: the same process ran `aldy profile` a moment ago with other parameters
+                prior_names = [n for n in ("gap", "min_mapq", "phase", "cn_max") if n not in params][:2]
+                pargv = ["profile", refbam, "-n", man["neutral"]]
+                for n in prior_names:
+                    pargv += ["--param", f"{n}={ {'gap': '0.7', 'min_mapq': '33', 'phase': 'false', 'cn_max': '7'}[n] }"]
+                with contextlib.redirect_stdout(io.StringIO()):
+                    O.run_main(pargv)
+                out["prior_cli"] = prior_names
             argv = ["profile", refbam, "-n", man["neutral"]]
             for k, v in params.items():
                 kk = k.replace("_", "-") if seg.get("dashes") else k
